@@ -212,6 +212,78 @@ def reachable(allowed, a, b):
     return b in seen
 
 
+def direct_state_probes(ctx, ss, scripts):
+    """The concrete counterpart of the exhaustive check of the model: every valid compartment state x every due / not-due assignment of the timers
+    named in the method's time tests is set up on one agent of a real, initialised disease module and pushed through the real step_state;
+    set_prognoses on a susceptible agent; step_die on an agent in every state."""
+    import re, itertools
+    mk = configs(ss)
+    for cname, sp in SPECS.items():
+        if cname not in mk: continue
+        try:
+            sim = mk[cname](7); sim.init()
+            for _ in range(len(sim.loop.plan) // max(1, sim.t.npts) * 2): sim.run_one_step()      # two whole steps in: ti >= 2
+        except Exception as E:
+            ctx.violation(f'direct-state probe: {cname} could not be set up: {type(E).__name__}: {E}', dict(disease=cname)); continue
+        dis = [d for d in sim.diseases() if type(d).__name__ == cname][0]
+        ti = int(dis.ti)
+        conds = [it[2] for it in scripts.get((cname, 'step_state'), []) if it[0] == 'sel' and it[2]]
+        timers = sorted(set(re.findall(r'self\.(ti_\w+)', ' '.join(conds))))
+        timers = [t for t in timers if hasattr(dis, t)]
+        # valid states: one partition flag, plus every consistent choice of the sub-state flags
+        subflags = [a for a, b in sp['subs']]
+        others = [f for f in sp['flags'] if f not in sp['part'] and f not in subflags]
+        au = np.asarray(sim.people.auids)
+        alive = au[np.asarray(sim.people.alive.raw[au])]
+        u = int(alive[len(alive) // 2]); U = ss.uids([u])
+        def one(d): return [f for f in sp['part'] if bool(getattr(d, f).raw[u])]
+        def consistent(d): return all((not bool(getattr(d, a).raw[u])) or bool(getattr(d, b).raw[u]) for a, b in sp['subs'])
+        for pf in sp['part']:
+            for subs_on in itertools.product([False, True], repeat=len(subflags)):
+                st = {f: (f == pf) for f in sp['part']}
+                st.update({f: v for f, v in zip(subflags, subs_on)})
+                if not all((not st.get(a, False)) or st.get(b, False) for a, b in sp['subs']): continue
+                for due in itertools.product([False, True], repeat=len(timers)):
+                    for f in sp['flags']:
+                        if f in st: getattr(dis, f)[U] = st[f]
+                    for t, dflag in zip(timers, due): getattr(dis, t)[U] = (ti - 1) if dflag else (ti + 7)
+                    if hasattr(dis, 'ti_dead') and 'ti_dead' in timers: pass
+                    try:
+                        dis.step_state()
+                    except Exception as E:
+                        ctx.violation(f'direct-state probe: {cname}.step_state on an agent in state {pf}{"+" + "+".join(f for f, v in zip(subflags, subs_on) if v) if any(subs_on) else ""} raised {type(E).__name__}: {E}', dict(disease=cname, state=pf)); break
+                    ctx.count(('direct', cname, pf, subs_on, due), nontrivial=True); ctx.dist('direct-state probe')
+                    now = one(dis)
+                    desc = f'{pf}' + ''.join('+' + f for f, v in zip(subflags, subs_on) if v) + ' with ' + (', '.join(f'{t} {"due" if dflag else "not due"}' for t, dflag in zip(timers, due)) or 'no timers')
+                    if len(now) != 1:
+                        ctx.violation(f'direct-state probe: {cname}.step_state takes an agent in state {desc} to {len(now)} compartments ({", ".join(now) or "none"})', dict(disease=cname, state=pf, due=list(due))); continue
+                    if not consistent(dis):
+                        ctx.violation(f'direct-state probe: {cname}.step_state takes an agent in state {desc} to an inconsistent sub-state', dict(disease=cname, state=pf, due=list(due))); continue
+                    allowed = {(sp['part'].index(a), sp['part'].index(b)) for a, b in sp['arrows']}
+                    if not reachable(allowed, sp['part'].index(pf), sp['part'].index(now[0])):
+                        ctx.violation(f'direct-state probe: {cname}.step_state moves an agent from {desc} to {now[0]}, not along the arrows of the model', dict(disease=cname, state=pf, due=list(due)))
+            # step_die from this state
+            if sp['dies']:
+                for f in sp['flags']: getattr(dis, f)[U] = (f == pf)
+                try:
+                    dis.step_die(U)
+                    left = [f for f in sp['flags'] if f in sp['part'] + subflags and bool(getattr(dis, f).raw[u])]
+                    ctx.count(('direct-die', cname, pf), nontrivial=True)
+                    if left: ctx.violation(f'direct-state probe: {cname}.step_die leaves the flags {left} on an agent who died in state {pf}', dict(disease=cname, state=pf))
+                except Exception as E:
+                    ctx.violation(f'direct-state probe: {cname}.step_die raised {type(E).__name__}: {E}', dict(disease=cname, state=pf))
+        # set_prognoses on a susceptible agent
+        for f in sp['flags']: getattr(dis, f)[U] = (f == 'susceptible')
+        try:
+            dis.set_prognoses(U)
+            now = one(dis)
+            ctx.count(('direct-prog', cname), nontrivial=True)
+            if len(now) != 1 or now[0] == 'susceptible' or not consistent(dis):
+                ctx.violation(f'direct-state probe: {cname}.set_prognoses on a susceptible agent leaves it in {now or "no compartment"}', dict(disease=cname))
+        except Exception as E:
+            ctx.violation(f'direct-state probe: {cname}.set_prognoses raised {type(E).__name__}: {E}', dict(disease=cname))
+
+
 def run(ctx):
     ctx.translate(['Gen_Compart'])
     ctx.build_props('C13')
@@ -297,6 +369,7 @@ def run(ctx):
                     metas.append(dict(config=name, seed=seed, cls=call['cls'], meth=call['meth'], ti=call['ti'], uid=u, before=st, after=ex, conds=cv))
                     ctx.count((name, seed, call['cls'], call['meth'], call['ti'], u), nontrivial=st != ex)
                 ctx.dist(f'call:{call["cls"]}.{call["meth"]}')
+    ctx.guard('direct_state_probes', direct_state_probes, ctx, ss, scripts)
     okdef = '''From Coq Require Import String.
 Open Scope string_scope.
 Definition same (ks : list string) (a b : valuation) : bool := forallb (fun k => Bool.eqb (getv a k) (getv b k)) ks.
